@@ -842,5 +842,19 @@ func c16RulePrograms() [][]Call {
 		{create, w(1000, "a"), w(2000, "b"), {Req: Req{Kind: "modify", Table: t, Mods: []FMod{{Kind: "drop", ID: "cf"}, {Kind: "create", ID: "cf"}}}, Now: 1000}, w(3000, "c"), w(4000, "d"), gc, rd},
 		{create, w(1000, "a"), w(2000, "b"), {Req: Req{Kind: "modify", Table: t, Mods: []FMod{{Kind: "update", ID: "cf2"}}}, Now: 1000}, w(3000, "c"), gc, rd},
 	}
+	// unions: cells condemned by ANY member go; two max-age members with different ages, cells between the
+	// two ages; a max-age next to a max-versions; nested unions
+	hour := int64(3600)
+	age := func(h int64) GcRule { return GcRule{Kind: "maxage", Secs: h * hour} }
+	un := func(rs ...GcRule) *GcRule { return &GcRule{Kind: "union", Rules: rs} }
+	nowUs := int64(100) * hour * 1000000
+	at := func(hAgo int64, v string) Call {
+		return Call{Req: Req{Kind: "mutate", Table: t, Key: []byte("r1"), Muts: []Mutation{{Kind: "set", Fam: "cf", Q: []byte("q"), Ts: nowUs - hAgo*hour*1000000, V: []byte(v)}}}, Now: 5000}
+	}
+	gcNow := Call{Req: Req{Kind: "gc", Table: t}, Now: nowUs}
+	for _, rule := range []*GcRule{un(age(2), age(6)), un(age(6), age(2)), un(GcRule{Kind: "maxversions", N: 4}, age(6), age(2)), un(*un(GcRule{Kind: "maxversions", N: 4}, age(6)), age(2)), un(age(6), GcRule{Kind: "maxversions", N: 1}), un(age(2))} {
+		progs = append(progs, []Call{{Req: Req{Kind: "create", Parent: parentA, Tid: "t1", Fams: []FamDef{{Name: "cf", Rule: rule}, {Name: "cf2"}}}, Now: 1000},
+			at(1, "1h"), at(3, "3h"), at(5, "5h"), at(7, "7h"), at(2, "2h-edge"), at(6, "6h-edge"), gcNow, rd})
+	}
 	return progs
 }
